@@ -201,8 +201,16 @@ def simpson2d (nodes : List α) (dx dy : α) (f : α → α → Cx α) : Cx α :
     Cx.muls (Cx.sum (idx.map fun (nx, x) => Cx.muls (f x y) (simpsonWeight nx divs))) (simpsonWeight ny divs))
   Cx.muls outer (dx * dy / (9.0 : α))
 
+/-- `Complex::norm` is `hypot`, which does not underflow for tiny arguments (the far tails of the singles
+function reach 1e-180): scaled form `m·√((re/m)² + (im/m)²)`, `m = max(|re|,|im|)`; equal to `√(re²+im²)` over ℝ. -/
+def hypot (z : Cx α) : α :=
+  let a := Transc.abs z.re
+  let b := Transc.abs z.im
+  let m := if a < b then b else a
+  if (0.0 : α) < m then m * Transc.sqrt ((a / m) * (a / m) + (b / m) * (b / m)) else m
+
 /-- `phasematch_singles_fiber_coupling`: `0.25 * integrate2d(fn_z).norm()` -/
-def pmSingles (integral : Cx α) : α := (0.25 : α) * integral.abs
+def pmSingles (integral : Cx α) : α := (0.25 : α) * hypot integral
 
 end
 end Spdc.Singles
